@@ -768,6 +768,13 @@ class Gen:
             self.no_headers = False
             act.pop("_defines", None)
             comps.append(L.when(L.fn("last"), act))
+        elif "control" in self.groups and r.random() < 0.2:
+            # a conditional skip() in the FINAL position: whether or not an earlier component already voted against the line,
+            # the flag is spent on this line and the next line starts clean
+            cond = self.boolean(1)
+            if cond["k"] in ("hdr", "var", "term"):
+                cond = L.fn("exists", self.nonterm(cond))
+            comps.append(r.choice([L.fn("skip", cond), L.when(cond, L.fn("skip"))]))
         first = self.fs.first_data_line()
         sc = self.scan(first)
         prog = {"scan": sc, "comps": comps, "meta": list(self.meta), "_adjacent_refs": self.adjacent_refs, "_rewrites": self.rewrites}
